@@ -448,12 +448,47 @@ theorem inv_gcDelete (s : St) (p : Path) (hI : Inv s)
       · exact absurd hd h
       · simp [h, hI.gone p' hd]
 
+/-- an event that changes, of all reload states, only fields the invariant does not mention -/
+theorem inv_same_rs (s s' : St) (hI : Inv s)
+    (h0 : s'.metas = s.metas ∧ s'.fs = s.fs ∧ s'.deleted = s.deleted ∧ s'.lock = s.lock ∧
+      s'.gcDels = s.gcDels ∧ s'.kList = s.kList ∧ s'.pubs = s.pubs ∧ s'.badOpens = s.badOpens)
+    (hr : ∀ x, (s'.rs x).phase = (s.rs x).phase ∧ (s'.rs x).j = (s.rs x).j ∧
+      (s'.rs x).tried = (s.rs x).tried ∧ (s'.rs x).handles = (s.rs x).handles ∧
+      (s'.rs x).failed = (s.rs x).failed) : Inv s' := by
+  obtain ⟨h1, h2, h3, h4, h5, h6, h7, h8⟩ := h0
+  refine ⟨?_, ?_, ?_, ?_, ?_, ?_, ?_, ?_, ?_, ?_, ?_, ?_⟩
+  · rw [h5, h3, h6, h1]; exact hI.doomed
+  · intro r j; rw [h4, (hr r).2.1, h6]; exact hI.holder r j
+  · rw [h1, h2, h3]; exact hI.exist
+  · rw [h6, h1]; exact hI.klt
+  · rw [h3, h2]; exact hI.gone
+  · intro r j; rw [(hr r).2.1, h1]; exact hI.jlt r j
+  · rw [h8]; exact hI.noBad
+  · intro r; rw [(hr r).2.2.2.2]; exact hI.notFailed r
+  · intro r p; rw [(hr r).2.2.1, (hr r).2.1, h1]; exact hI.triedSub r p
+  · intro r; rw [(hr r).2.2.2.1, (hr r).2.2.1]; exact hI.handlesTried r
+  · intro r j; rw [h7, (hr r).1, (hr r).2.1, h1, (hr r).2.2.1]; exact hI.pubOk r j
+  · intro r; rw [(hr r).1, (hr r).2.2.1]; exact hI.lockedFresh r
+
+theorem rs_warm (s : St) (r x : Rid) :
+    ((step s (.warm r)).rs x).phase = (s.rs x).phase ∧ ((step s (.warm r)).rs x).j = (s.rs x).j ∧
+    ((step s (.warm r)).rs x).tried = (s.rs x).tried ∧
+    ((step s (.warm r)).rs x).handles = (s.rs x).handles ∧
+    ((step s (.warm r)).rs x).failed = (s.rs x).failed := by
+  by_cases h : x = r
+  · subst h; simp [step, upd]
+  · simp [step, upd, h]
+
+theorem inv_warm (s : St) (r : Rid) (hI : Inv s) : Inv (step s (.warm r)) :=
+  inv_same_rs s _ hI ⟨rfl, rfl, rfl, rfl, rfl, rfl, rfl, rfl⟩ (rs_warm s r)
+
 theorem inv_step (s : St) (e : Ev) (hI : Inv s) (hok : ok full s e = true) : Inv (step s e) := by
   cases e with
   | acquire r => exact inv_acquire s r hI hok
   | loadMeta r => exact inv_loadMeta s r hI hok
   | openFile r p => exact inv_openFile s r p hI hok
   | release r => exact inv_release s r hI hok
+  | warm r => exact inv_warm s r hI
   | publish r => exact inv_publish s r hI hok
   | create p b => exact inv_create s p b hI hok
   | saveMeta f => exact inv_saveMeta s f hI hok
@@ -461,6 +496,10 @@ theorem inv_step (s : St) (e : Ev) (hI : Inv s) (hok : ok full s e = true) : Inv
   | gcList l => exact inv_gcList s l hI hok
   | gcRelease => exact inv_gcRelease s hI hok
   | gcDelete p => exact inv_gcDelete s p hI hok
+  | mLock r =>
+    exact inv_same_rs s _ hI ⟨rfl, rfl, rfl, rfl, rfl, rfl, rfl, rfl⟩ (fun _ => ⟨rfl, rfl, rfl, rfl, rfl⟩)
+  | mUnlock r =>
+    exact inv_same_rs s _ hI ⟨rfl, rfl, rfl, rfl, rfl, rfl, rfl, rfl⟩ (fun _ => ⟨rfl, rfl, rfl, rfl, rfl⟩)
 
 theorem check_append (f : St → Ev → Bool) (s : St) (t u : List Ev) :
     check f s (t ++ u) = (check f s t && check f (run s t) u) := by
